@@ -247,6 +247,10 @@ class StmtMixin:
             d = self.field_decl(base.cls, attr)
             if d is None:
                 raise Unsupported(f"no model for field {base.cls}.{attr} (line {node.lineno})")
+            if isinstance(v, VOpt) and not isinstance(d[1], KOpt):
+                # the model has no None for this field: the value must be known not-None here
+                st = self.oblige(st, Not(v.isnone), "lowering", f"non-optional-field:{base.cls}.{attr}")
+                v = v.inner
             return [Out("ok", self.write_field(st, base, attr, self.coerce(st, v, d[1])))]
         raise Unsupported(f"attribute store on {base!r}")
 
